@@ -12,7 +12,7 @@ package udphop
 // nondeterministic choices the code made (rand.Intn address index, which select arm won)
 // are passed to the model on the model-op line.
 //
-//	reset <rseed> <exprhex> <minNs> <maxNs> <listenOk>   new connection (closes the old one)
+//	reset <rseed> <addrhex> <minNs> <maxNs> <listenOk>   new connection to host:portexpr (closes the old one)
 //	tick <listenOk>        advance virtual time until the hop timer fires
 //	racehop <listenOk>     hop() whose timer fired before Close but which runs after it
 //	write <n> | recv <k> <hex> | rtimeout <k> | flood <k> <n> | read <blen>
@@ -33,7 +33,9 @@ import (
 	"fmt"
 	"math/rand"
 	"net"
+	"net/netip"
 	"os"
+	"regexp"
 	"runtime"
 	"strings"
 	"sync"
@@ -97,7 +99,7 @@ func portsTerminates() bool {
 type hangComp struct{}
 
 func (hangComp) Gen(r *vh.RNG, n int, emit func(op string, tags ...string)) {
-	emit("reset 1 "+vh.Hex([]byte("65534-65535"))+" 0 0 1", "preflight")
+	emit("reset 1 "+vh.Hex([]byte("127.0.0.1:65534-65535"))+" 0 0 1", "preflight")
 }
 
 func (hangComp) Run(op string) vh.Result {
@@ -245,6 +247,7 @@ type hopComp struct {
 	closed    bool // Close() has returned on conn
 	refSet    *[65536]bool
 	serverIP  net.IP
+	wantIP    netip.Addr // the literal host of the address string, parsed independently
 	lastReset time.Time // when the hop timer was last armed
 	pending   chan readRes
 	pendBlen  int
@@ -417,6 +420,30 @@ func refParse(s string) (*[65536]bool, int, bool) {
 		}
 	}
 	return &bm, n, true
+}
+
+var (
+	rePlain   = regexp.MustCompile(`^([^:\[\]]*):([^:\[\]]*)$`)
+	reBracket = regexp.MustCompile(`^\[([^\[\]]*)\]:([^:\[\]]*)$`)
+)
+
+// refSplit: independent description of host:port / [host]:port.
+func refSplit(s string) (host, port string, ok bool) {
+	if m := reBracket.FindStringSubmatch(s); m != nil {
+		return m[1], m[2], true
+	}
+	if m := rePlain.FindStringSubmatch(s); m != nil {
+		return m[1], m[2], true
+	}
+	return "", "", false
+}
+
+var splitKinds = map[string]string{
+	"missing port in address":    "missingport",
+	"too many colons in address": "toomanycolons",
+	"missing ']' in address":     "missingbracket",
+	"unexpected '[' in address":  "unexpectedopen",
+	"unexpected ']' in address":  "unexpectedclose",
 }
 
 // ---- census oracle
@@ -638,29 +665,50 @@ func (c *hopComp) Run(op string) (res vh.Result) {
 	case "reset":
 		c.cleanup()
 		rand.Seed(atoi(f[1]))
-		expr := string(vh.UnHex(f[2]))
+		full := string(vh.UnHex(f[2]))
 		mn, mx := atoi(f[3]), atoi(f[4])
 		listenOk := f[5] == "1"
+		// independent reading of the address: last colon, optional brackets, literal IP
+		host, expr, splitOK := refSplit(full)
 		ref, nref, valid := refParse(expr)
-		addr, err := ResolveUDPHopAddr("127.0.0.1:" + expr)
-		if err != nil {
-			var ipe InvalidPortError
-			if !errors.As(err, &ipe) {
-				return vh.Result{Out: "new badaddr " + err.Error()}
+		ipres := "err"
+		var wantIP netip.Addr
+		if splitOK {
+			if r, e := net.ResolveIPAddr("ip", host); e == nil {
+				ipres = vh.Hex(r.IP)
 			}
-			if valid {
-				fails = append(fails, fmt.Sprintf("ResolveUDPHopAddr rejected the well-formed port expression %q", expr))
+			if lit, e := netip.ParseAddr(host); e == nil {
+				wantIP = lit.WithZone("").Unmap()
 			}
-			return vh.Result{Out: "new badexpr", ModelOp: fmt.Sprintf("reset %s %d %d %s 0", f[2], mn, mx, f[5]), Oracle: fails}
 		}
-		if !valid {
-			fails = append(fails, fmt.Sprintf("ResolveUDPHopAddr accepted the malformed port expression %q", expr))
+		mopFail := fmt.Sprintf("reset %s %s %d %d %s 0", f[2], ipres, mn, mx, f[5])
+		addr, err := ResolveUDPHopAddr(full)
+		if err != nil {
+			out := "new err resolve"
+			var ipe InvalidPortError
+			var ae *net.AddrError
+			switch {
+			case errors.As(err, &ipe):
+				out = "new err port"
+			case errors.As(err, &ae) && splitKinds[ae.Err] != "":
+				out = "new err split:" + splitKinds[ae.Err]
+			}
+			if splitOK && valid && ipres != "err" {
+				fails = append(fails, fmt.Sprintf("ResolveUDPHopAddr rejected the well-formed address %q: %v", full, err))
+			}
+			return vh.Result{Out: out, ModelOp: mopFail, Oracle: fails}
+		}
+		if !valid || !splitOK {
+			fails = append(fails, fmt.Sprintf("ResolveUDPHopAddr accepted the malformed address %q", full))
 			ref = &[65536]bool{}
 		}
 		if len(addr.Ports) != nref {
 			fails = append(fails, fmt.Sprintf("address lists %d ports, the expression %d", len(addr.Ports), nref))
 		}
-		c.refSet, c.serverIP = ref, addr.IP
+		if got, ok := netip.AddrFromSlice(addr.IP); wantIP.IsValid() && (!ok || got.Unmap() != wantIP) {
+			fails = append(fails, fmt.Sprintf("resolved server IP %v is not the literal host %q", addr.IP, host))
+		}
+		c.refSet, c.serverIP, c.wantIP = ref, addr.IP, wantIP
 		c.failNext = !listenOk
 		pc, err := NewUDPHopPacketConn(addr, HopIntervalConfig{Min: time.Duration(mn), Max: time.Duration(mx)}, c.listen)
 		synctest.Wait()
@@ -672,7 +720,7 @@ func (c *hopComp) Run(op string) (res vh.Result) {
 			c.mu.Lock()
 			c.listens = 0
 			c.mu.Unlock()
-			return vh.Result{Out: "new err", ModelOp: fmt.Sprintf("reset %s %d %d %s 0", f[2], mn, mx, f[5]), Oracle: fails}
+			return vh.Result{Out: "new err", ModelOp: mopFail, Oracle: fails}
 		}
 		c.conn = pc.(*udpHopPacketConn)
 		c.lastReset = time.Now()
@@ -684,8 +732,8 @@ func (c *hopComp) Run(op string) (res vh.Result) {
 			fails = append(fails, "initial addrIndex out of range")
 		}
 		c.census(&fails)
-		return vh.Result{Out: fmt.Sprintf("new ok n=%d", len(addr.Ports)), NonTrivial: true,
-			ModelOp: fmt.Sprintf("reset %s %d %d %s %d", f[2], mn, mx, f[5], idx), Oracle: fails}
+		return vh.Result{Out: fmt.Sprintf("new ok n=%d ip=%s", len(addr.Ports), vh.Hex(addr.IP)), NonTrivial: true,
+			ModelOp: fmt.Sprintf("reset %s %s %d %d %s %d", f[2], ipres, mn, mx, f[5], idx), Oracle: fails}
 	}
 	if c.conn == nil {
 		return vh.Result{Out: "noconn"}
@@ -846,12 +894,19 @@ func (c *hopComp) Run(op string) (res vh.Result) {
 			}
 			w := ws[0]
 			ua, _ := w.addr.(*net.UDPAddr)
-			port := -1
+			port, ipHex := -1, "-"
 			if ua != nil {
 				port = ua.Port
 				if !ua.IP.Equal(c.serverIP) {
 					fails = append(fails, fmt.Sprintf("WriteTo went to %v, not to the server IP %v", ua.IP, c.serverIP))
 				}
+				if got, ok := netip.AddrFromSlice(ua.IP); c.wantIP.IsValid() && (!ok || got.Unmap() != c.wantIP) {
+					fails = append(fails, fmt.Sprintf("WriteTo went to IP %v, the address names %v", ua.IP, c.wantIP))
+				}
+				if ua.Zone != "" {
+					fails = append(fails, "WriteTo destination carries a zone")
+				}
+				ipHex = vh.Hex(ua.IP)
 				if port < 0 || port > 65535 || !c.refSet[port] {
 					fails = append(fails, fmt.Sprintf("WriteTo went to port %d, which the port expression does not list", port))
 				}
@@ -861,7 +916,7 @@ func (c *hopComp) Run(op string) (res vh.Result) {
 			if w.sock != c.nsocks()-1 {
 				fails = append(fails, fmt.Sprintf("WriteTo used socket %d, the newest is %d", w.sock, c.nsocks()-1))
 			}
-			out = fmt.Sprintf("write sock=%d port=%d", w.sock, port)
+			out = fmt.Sprintf("write sock=%d ip=%s port=%d", w.sock, ipHex, port)
 		}
 	case "recv", "rtimeout", "flood":
 		k := int(atoi(f[1]))
@@ -1079,8 +1134,15 @@ func (c *hopComp) Gen(r *vh.RNG, n int, emit func(op string, tags ...string)) {
 		if r.Chance(1, 20) {
 			lok = "0"
 		}
-		e(fmt.Sprintf("reset %d %s %d %d %s", r.Intn(1<<30), vh.Hex([]byte(expr)), mn, mx, lok), "reset")
-		if _, _, okExpr := refParse(expr); !okExpr || lok == "0" || (mn|mx != 0 && (mn == 0 || mx == 0 || mn > mx || mn < 5*sec)) {
+		host := []string{"127.0.0.1", "127.0.0.1", "10.1.2.3", "192.0.2.7", "[::1]", "[2001:db8::1]", "[::ffff:1.2.3.4]", "[fe80::1%eth0]"}[r.Intn(8)]
+		full := host + ":" + expr
+		badAddr := false
+		if r.Chance(1, 40) {
+			full = []string{"2001:db8::1:" + expr, "[::1]" + expr, "127.0.0.1", "[::1:" + expr, "1.2.3.256:" + expr}[r.Intn(5)]
+			badAddr = true
+		}
+		e(fmt.Sprintf("reset %d %s %d %d %s", r.Intn(1<<30), vh.Hex([]byte(full)), mn, mx, lok), "reset")
+		if _, _, okExpr := refParse(expr); badAddr || !okExpr || lok == "0" || (mn|mx != 0 && (mn == 0 || mx == 0 || mn > mx || mn < 5*sec)) {
 			// creation is expected to fail: two probes are enough
 			e("write 1", "write-noconn")
 			e("socks", "socks")
